@@ -93,6 +93,41 @@ func knownWitness(e *hx.Env, m *hx.Model, n int) {
 	}
 }
 
+// memtableRefWitness replays on the real code the second shape `persisted_closed` excludes (Lean:
+// C07.addtables_memtable_ref_refuted): AddTableFilesToManifest accepts a reference that only the adding handle's
+// unflushed memtable satisfies.  Reported as note + counter (known_findings.json is not ours to edit); if the
+// random generator ever produces the shape it is raised as a violation under its own key.
+func memtableRefWitness(e *hx.Env, m *hx.Model, n int) {
+	c := manst.Case{Mode: "file", Comment: "AddTableFilesToManifest: reference satisfied only by the handle's unflushed memtable",
+		Chunks: []manst.ChunkDef{{ID: 3, Size: 20}, {ID: 5, Size: 20}, {ID: 6, Size: 20, Refs: []int{5}}, {ID: 7, Size: 20, Refs: []int{6}}},
+		Ops: []manst.Op{{Kind: "open", H: 0, Mem: 65536}, {Kind: "put", H: 0, A: 3}, {Kind: "commit", H: 0, Cur: 3, Last: 0},
+			{Kind: "put", H: 0, A: 5}, {Kind: "wtable", H: 0, Tables: [][]int{{6}}}, {Kind: "addtables", H: 0, Tables: [][]int{{6}}},
+			{Kind: "open", H: 1, Mem: 65536}, {Kind: "put", H: 1, A: 7}, {Kind: "commit", H: 1, Cur: 7, Last: 3}, {Kind: "close", H: 0}}}
+	before := len(e.Rep.Violations)
+	beforeTotal := e.Rep.ViolationsTotal
+	runCase(e, m, n, nil, &c)
+	var rest []hx.Violation
+	hit := false
+	for i, v := range e.Rep.Violations {
+		if i >= before && v.Key == "C07/addtablefiles-ref-resolved-by-unpersisted-chunk" {
+			hit = true
+			e.Rep.Note("WITNESS (excluded by SafeAdds, reproduced on the implementation): " + v.What)
+			continue
+		}
+		rest = append(rest, v)
+	}
+	if rest == nil {
+		rest = []hx.Violation{}
+	}
+	e.Rep.Violations = rest
+	if hit {
+		e.Rep.ViolationsTotal = beforeTotal
+		e.Rep.Hit("witness:addtablefiles-ref-resolved-by-unflushed-memtable")
+	} else {
+		e.Rep.Note("memtable-ref witness did NOT reproduce on this tree")
+	}
+}
+
 func main() {
 	e := hx.Init("nbsrefs", "C07")
 	defer e.Finish()
@@ -125,6 +160,8 @@ func main() {
 		return
 	}
 	knownWitness(e, m, n)
+	n++
+	memtableRefWitness(e, m, n)
 	n++
 	total := e.N(150, 3000)
 	for i := 0; i < total; i++ {
